@@ -5,7 +5,9 @@ Section SystemFacts.
   Variables Q A : Type.
   Variable key : Q -> list N.
   Variable ans : Q -> A.
-  Hypothesis key_inj : forall q1 q2, key q1 = key q2 -> q1 = q2.
+  (* the key is injective on the questions that can arrive (D: e.g. well-formed lower-cased names, 16-bit class/type) *)
+  Variable D : Q -> Prop.
+  Hypothesis key_inj : forall q1 q2, D q1 -> D q2 -> key q1 = key q2 -> q1 = q2.
 
   Lemma list_eqb_sys_eq a : forall b, list_eqb a b = true <-> a = b.
   Proof.
@@ -15,10 +17,12 @@ Section SystemFacts.
   Qed.
 
   (* every cache entry under the key of q holds ans q *)
-  Definition cache_ok (c : list (list N * A)) : Prop := forall q a, sys_find A (key q) c = Some a -> a = ans q.
+  Definition cache_ok (c : list (list N * A)) : Prop := forall q a, D q -> sys_find A (key q) c = Some a -> a = ans q.
   (* every request that holds an answer holds the answer to its own question *)
   Definition req_ok (r : sys_req Q A) : Prop :=
+    D (sr_q _ _ r) /\
     match sr_pc _ _ r with SpGot _ a => a = ans (sr_q _ _ r) | SpDone _ a _ => a = ans (sr_q _ _ r) | _ => True end.
+  Definition label_ok (l : sys_label Q) : Prop := match l with SlArrive q => D q | _ => True end.
   Definition sys_inv (s : sys_state Q A) : Prop := cache_ok (sy_cache _ _ s) /\ Forall req_ok (sy_reqs _ _ s).
 
   Lemma find_remove_other k k' c : list_eqb k k' = false -> sys_find A k (sys_remove A k' c) = sys_find A k c.
@@ -37,7 +41,7 @@ Section SystemFacts.
 
   Lemma cache_ok_remove k c : cache_ok c -> cache_ok (sys_remove A k c).
   Proof.
-    intros H q a Hf. destruct (list_eqb (key q) k) eqn:E.
+    intros H q a Hd Hf. destruct (list_eqb (key q) k) eqn:E.
     - apply list_eqb_sys_eq in E. subst k. rewrite find_remove_same in Hf. discriminate.
     - rewrite find_remove_other in Hf by exact E. now apply H.
   Qed.
@@ -50,48 +54,52 @@ Section SystemFacts.
   Lemma nth_Forall {X} (P : X -> Prop) l i x : Forall P l -> nth_error l i = Some x -> P x.
   Proof. intros H Hn. rewrite Forall_forall in H. apply H. eapply nth_error_In; eauto. Qed.
 
-  Lemma sys_step_inv s l s' : sys_inv s -> sys_step Q A key ans s l = Some s' -> sys_inv s'.
+  Lemma sys_step_inv s l s' : label_ok l -> sys_inv s -> sys_step Q A key ans s l = Some s' -> sys_inv s'.
   Proof.
-    intros [Hc Hr] H. destruct l as [q|i|i|i|i|k]; cbn [sys_step] in H.
-    - inversion H; subst. split; [exact Hc|]. cbn. apply Forall_app. split; [exact Hr|]. repeat constructor.
+    intros Hl [Hc Hr] H. destruct l as [q|i|i|i|i|k]; cbn [sys_step] in H.
+    - inversion H; subst. split; [exact Hc|]. cbn. apply Forall_app. split; [exact Hr|].
+      constructor; [|constructor]. split; [exact Hl|exact I].
     - destruct (nth_error (sy_reqs Q A s) i) as [[q pc]|] eqn:En; [|discriminate].
       destruct pc; try discriminate.
+      destruct (nth_Forall _ _ _ _ Hr En) as [Dq _]. cbn in Dq.
       destruct (sys_find A (key q) (sy_cache Q A s)) as [a|] eqn:Ef; inversion H; subst; split; cbn; auto.
-      + apply set_Forall; [exact Hr|]. unfold req_ok. cbn. now apply Hc.
-      + apply set_Forall; [exact Hr|]. exact I.
+      + apply set_Forall; [exact Hr|]. split; [exact Dq|]. cbn. now apply Hc.
+      + apply set_Forall; [exact Hr|]. split; [exact Dq|exact I].
     - destruct (nth_error (sy_reqs Q A s) i) as [[q pc]|] eqn:En; [|discriminate].
-      destruct pc; try discriminate. inversion H; subst. split; cbn; auto. apply set_Forall; [exact Hr|exact I].
+      destruct pc; try discriminate. destruct (nth_Forall _ _ _ _ Hr En) as [Dq _]. cbn in Dq.
+      inversion H; subst. split; cbn; auto. apply set_Forall; [exact Hr|split; [exact Dq|exact I]].
     - destruct (nth_error (sy_reqs Q A s) i) as [[q pc]|] eqn:En; [|discriminate].
-      destruct pc; try discriminate. inversion H; subst. split; cbn; auto.
-      apply set_Forall; [exact Hr|]. reflexivity.
+      destruct pc; try discriminate. destruct (nth_Forall _ _ _ _ Hr En) as [Dq _]. cbn in Dq.
+      inversion H; subst. split; cbn; auto.
+      apply set_Forall; [exact Hr|]. split; [exact Dq|reflexivity].
     - destruct (nth_error (sy_reqs Q A s) i) as [[q pc]|] eqn:En; [|discriminate].
       destruct pc as [| | |a|]; try discriminate. inversion H; subst.
-      pose proof (nth_Forall _ _ _ _ Hr En) as Hq. unfold req_ok in Hq. cbn in Hq. split; cbn.
-      + intros q2 a2 Hf. cbn in Hf. destruct (list_eqb (key q2) (key q)) eqn:E.
-        * apply list_eqb_sys_eq in E. apply key_inj in E. inversion Hf; subst. reflexivity.
+      destruct (nth_Forall _ _ _ _ Hr En) as [Dq Hq]. cbn in Dq, Hq. split; cbn.
+      + intros q2 a2 D2 Hf. cbn in Hf. destruct (list_eqb (key q2) (key q)) eqn:E.
+        * apply list_eqb_sys_eq in E. apply key_inj in E; auto. inversion Hf; subst. reflexivity.
         * rewrite find_remove_other in Hf by exact E. now apply Hc.
-      + apply set_Forall; [exact Hr|]. exact Hq.
+      + apply set_Forall; [exact Hr|]. split; [exact Dq|exact Hq].
     - inversion H; subst. split; cbn; [now apply cache_ok_remove|exact Hr].
   Qed.
 
-  Theorem sys_run_inv ls : forall s s', sys_inv s -> sys_run Q A key ans s ls = Some s' -> sys_inv s'.
+  Theorem sys_run_inv ls : Forall label_ok ls -> forall s s', sys_inv s -> sys_run Q A key ans s ls = Some s' -> sys_inv s'.
   Proof.
-    induction ls as [|l ls IH]; intros s s' Hi H; cbn in H; [inversion H; now subst|].
+    induction 1 as [|l ls Hl _ IH]; intros s s' Hi H; cbn in H; [inversion H; now subst|].
     destruct (sys_step Q A key ans s l) as [s1|] eqn:E; [|discriminate].
     eapply IH; [eapply sys_step_inv; eauto|exact H].
   Qed.
 
   Lemma sys_init_inv : sys_inv (sys_init Q A).
-  Proof. split; [intros q a H; discriminate|constructor]. Qed.
+  Proof. split; [intros q a _ H; discriminate|constructor]. Qed.
 
   (* C04: in every reachable state — any number of requests, any interleaving of lookups, exchanges completing in any
      order, stores and evictions — every response (fresh or from cache) carries the upstream's answer to ITS OWN
      question, and every cache entry holds the answer to the question of its key. *)
-  Theorem sys_own_answer ls s : sys_run Q A key ans (sys_init Q A) ls = Some s ->
+  Theorem sys_own_answer ls s : Forall label_ok ls -> sys_run Q A key ans (sys_init Q A) ls = Some s ->
     (forall i q a c, nth_error (sy_reqs Q A s) i = Some (mkSysReq Q A q (SpDone A a c)) -> a = ans q) /\
-    (forall q a, sys_find A (key q) (sy_cache Q A s) = Some a -> a = ans q).
+    (forall q a, D q -> sys_find A (key q) (sy_cache Q A s) = Some a -> a = ans q).
   Proof.
-    intros H. destruct (sys_run_inv ls _ _ sys_init_inv H) as [Hc Hr]. split; [|exact Hc].
-    intros i q a c Hn. apply (nth_Forall _ _ _ _ Hr Hn).
+    intros Hl H. destruct (sys_run_inv ls Hl _ _ sys_init_inv H) as [Hc Hr]. split; [|exact Hc].
+    intros i q a c Hn. destruct (nth_Forall _ _ _ _ Hr Hn) as [_ Hq]. exact Hq.
   Qed.
 End SystemFacts.
